@@ -158,6 +158,10 @@ LexEntry:
                                 // Get the total number of generated tokens and specify "null"
                                 // information for them.
                                 auto all = strtoul(tk.valueText_c_str(), 0, 0);
+                                // A generated token takes at least one byte of the text.
+                                auto left = static_cast<unsigned long>(c_strEnd_ - yytext_);
+                                if (all > left)
+                                    all = left;
                                 auto prevSize = expansions.size();
                                 expansions.resize(prevSize + all);
                                 std::fill(expansions.begin() + prevSize,
